@@ -284,6 +284,17 @@ impl TopologicalSortMachine
                                     currently on */
                                 if indices_in_stack.contains(buffer_index)
                                 {
+                                    /*  A visited frame on the stack is an ancestor of this one, that is a cycle.
+                                        An unvisited one is only waiting there as the sibling of an ancestor.
+                                        This frame needs it first, so move it to the top of the stack. */
+                                    if let Some(position) = stack.iter().position(
+                                        |f| f.index == *buffer_index && !f.visited)
+                                    {
+                                        indices_in_stack.remove(buffer_index);
+                                        reverser.push(stack.remove(position));
+                                        continue;
+                                    }
+
                                     let mut target_cycle = vec![];
                                     for f in stack.iter()
                                     {
